@@ -25,7 +25,7 @@ CHECKS = {
     "C10": (
         "progmc c10",
         "bounded-exhaustive enumeration of (container form, element type, length, access kind, index type, index value) and (sum type, placement, held variant, requested variant) cases, each compiled by the real CLI and executed in its own process, against a reference model of in-range access and of the abort behaviour",
-        "10 container forms (array, slice, ^array, ^mut array, ^^array, slice in a struct field, ^slice, outer and inner level of a nested array, array in a struct field) x 4 element types (u8, i32, i64, 12-byte struct) x lengths 1..4 x read / write / compound assignment / ^mut of the element x runtime indexes (through an opaque function) of type u8/u16/u32/u64/usize/u128 with values 0..n+4 and the type's boundaries 2^k-1, 2^k (u128: 2^64+k) (quick: full index alphabet for i32 x n=3, usize boundaries elsewhere; thorough: full product) and literal indexes 0..n+1; big arrays ([100]T, [20000]T, [6][16]i32) indexed with u8 / u16 / u32 values whose product with the element stride exceeds the index type; 12 sum types (enums with/without payloads and custom discriminants, optionals, ?^i32, error unions) x 5 placements x every (held, requested) pair for #unwrap incl. the 1-argument form; every 3-variant enum whose discriminants are automatic or hand-written from {0, 1, 2, 5} (at least one hand-written) x every (held, requested) pair. In range: exactly that element is read/written (whole container, the aliased array and guards printed afterwards). Out of range / wrong variant: the sentinel before the access is printed, then the message, wait status = exit 1 (not a signal), the sentinel after it never appears. Literal index >= n on a fixed array: rejected at compile time.",
+        "10 container forms (array, slice, ^array, ^mut array, ^^array, slice in a struct field, ^slice, outer and inner level of a nested array, array in a struct field) x 4 element types (u8, i32, i64, 12-byte struct) x lengths 1..4 x read / write / compound assignment / ^mut of the element x runtime indexes (through an opaque function) of type u8/u16/u32/u64/usize/u128 with values 0..n+4 and the type's boundaries 2^k-1, 2^k (u128: 2^64+k) (quick: full index alphabet for i32 x n=3, usize boundaries elsewhere; thorough: full product) and literal indexes 0..n+1; big arrays ([100]T, [20000]T, [6][16]i32) indexed with u8 / u16 / u32 values whose product with the element stride exceeds the index type; 12 sum types (enums with/without payloads and custom discriminants, optionals, ?^i32, error unions) x 5 placements x every (held, requested) pair for #unwrap incl. the 1-argument form; a slice that the index expression itself re-points at an array of another length (6 -> 2 and 2 -> 6, read and write, indexes 0..7, guard fields around both arrays); every 3-variant enum whose discriminants are automatic or hand-written from {0, 1, 2, 5} (at least one hand-written) x every (held, requested) pair. In range: exactly that element is read/written (whole container, the aliased array and guards printed afterwards). Out of range / wrong variant: the sentinel before the access is printed, then the message, wait status = exit 1 (not a signal), the sentinel after it never appears. Literal index >= n on a fixed array: rejected at compile time.",
         "The out-of-range access itself cannot be observed after exit; clean exit 1 for every huge index (2^31 .. 2^128-1) is what shows no wild access happened first. Arrays of zero-sized elements are not generated.",
         "§4 C10",
     ),
@@ -102,7 +102,7 @@ CHECKS = {
     "C28": (
         "progmc c28",
         "bounded-exhaustive enumeration of import graphs over a directory tree and of single-deviation programs, each compiled by the real CLI (--verbose-ast local) and executed, against a reference path resolver",
-        "All 512 directed graphs (self-imports and cycles included) over main.capy, a.capy, d/b.capy with every edge spelled in one of three ways (canonical, `./`-prefixed, detour through `x/..`) (thorough: all three spelling rotations, plus graphs of <= 4 edges that involve d/e/c.capy): main prints `file.id` through every import path of length <= 3 and the output must be what the reference resolver predicts; every reachable file must be parsed exactly once and unreachable files never. 29 deviations: missing target, target not ending in .capy (3 forms), directory as target, targets outside cwd and module directory (5 forms incl. siblings whose names have the cwd / the module directory as prefix), a target inside the module directory by relative path, #mod of core / a good module / no mod.capy / no src / missing / 7 non-alphanumeric names, import relative to the importer rather than the cwd.",
+        "All 512 directed graphs (self-imports and cycles included) over main.capy, a.capy, d/b.capy with every edge spelled in one of three ways (canonical, `./`-prefixed, detour through `x/..`) and the entry file named on the command line in one of four ways (main.capy, ./main.capy, d/../main.capy, .//main.capy) (quick: one edge spelling and one entry spelling per graph, rotating; thorough: all 12 combinations, plus graphs of <= 4 edges that involve d/e/c.capy): main prints `file.id` through every import path of length <= 3 and the output must be what the reference resolver predicts; every reachable file must be parsed exactly once and unreachable files never. 29 deviations: missing target, target not ending in .capy (3 forms), directory as target, targets outside cwd and module directory (5 forms incl. siblings whose names have the cwd / the module directory as prefix), a target inside the module directory by relative path, #mod of core / a good module / no mod.capy / no src / missing / 7 non-alphanumeric names, import relative to the importer rather than the cwd.",
         "<= 4 files in <= 3 directories (the quantifier allows 6 files).",
         "§4 C28",
     ),
@@ -128,10 +128,10 @@ CHECKS = {
         "§4 C23",
     ),
     "C25": (
-        "capy-verif linecol-mc",
-        "bounded-exhaustive enumeration of (text, offset) pairs against the definition; exhaustive rendering of every diagnostic of a parse/front-end sweep",
-        "All 488281 strings of length <= 8 over {a, \\n, \\r, \\t, e-acute} x every byte offset are checked against the definition of line and column; every syntax diagnostic of an exhaustive parse sweep (token strings <= 3, thorough 4; corpus and its single-token edits) and every front-end diagnostic of the corpus is rendered by the real Diagnostic::display and its header compared with the 1-based reference position of range.start.",
-        "Type-checker diagnostics that need the real file system are covered by the CLI-driven checks, not here.",
+        "capy-verif linecol-mc + progmc c25",
+        "bounded-exhaustive enumeration of (text, offset) pairs against the definition; exhaustive rendering of every diagnostic of a parse/front-end sweep; bounded-exhaustive enumeration of multi-file programs with one erroneous token compiled by the real CLI",
+        "All 488281 strings of length <= 8 over {a, \\n, \\r, \\t, e-acute} x every byte offset are checked against the definition of line and column; every syntax diagnostic of an exhaustive parse sweep (token strings <= 3, thorough 4; corpus and its single-token edits) and every front-end diagnostic of the corpus is rendered by the real Diagnostic::display and its header compared with the 1-based reference position of range.start. Program level: one erroneous token (type mismatch = type-checker diagnostic, undefined reference = lowering diagnostic) in the entry file, an imported file or a file imported by an imported file x 0..5 (thorough 0..11) leading lines of that file x leading lines of the other files x indentation (none, spaces, tab) x a multi-byte character before the token: the header printed by the real CLI must name that file and the token's own line and column.",
+        "Program level: two diagnostic kinds whose range starts at a single token; other kinds are covered in process only.",
         "§4 C25",
     ),
     "C26": (
@@ -255,7 +255,7 @@ def main():
             {"name": "capy-verif", "path": "/verif/harness", "kind_free_text": "Rust binary linking the real capy crates: bounded-exhaustive enumerators, stateright model, supervised in-process compiler workers",
              "serves_properties": [p for p in all_ids if p in CHECKS and CHECKS[p][0].startswith("capy-verif")]},
             {"name": "progmc", "path": "/verif/progmc", "kind_free_text": "Python: program IR, printer, reference interpreter, exhaustive typed enumerators, batching driver of the real capy CLI",
-             "serves_properties": [p for p in all_ids if p in CHECKS and CHECKS[p][0].startswith("progmc")]},
+             "serves_properties": [p for p in all_ids if p in CHECKS and "progmc" in CHECKS[p][0]]},
         ],
         "checks": checks,
         "not_applicable": not_applicable,
